@@ -13,10 +13,9 @@
 package main
 
 import (
-	"time"
-	"context"
 	"bufio"
 	"bytes"
+	"context"
 	"encoding/hex"
 	"flag"
 	"fmt"
@@ -25,8 +24,10 @@ import (
 	"path/filepath"
 	"regexp"
 	"sort"
+	"strconv"
 	"strings"
 	"sync"
+	"time"
 
 	"verif/harness/internal/progen"
 	"verif/harness/internal/rng"
@@ -673,11 +674,21 @@ func (c *caseT) minigoC(coqflags []string, out string) {
 		}
 	}
 	var b strings.Builder
-	b.WriteString("From Coq Require Import ZArith String List.\nImport ListNotations.\nFrom GV Require Import Lang.GlSyntax Lang.GlSem Tr.MiniGo Tr.MiniGoC.\n")
+	b.WriteString("From Coq Require Import ZArith String List.\nImport ListNotations.\nFrom GV Require Import Lang.GlSyntax Lang.GlSem Tr.MiniGo Tr.MiniGoC Tr.Decls Tr.MiniGoCProofs Tr.MiniGoCOrder.\n")
 	fmt.Fprintf(&b, "From Goose Require Import gen.%s.\nSet Printing Width 100000.\nOpen Scope string_scope.\n", strings.ReplaceAll(c.dir, "/", "."))
+	var src []string
 	for _, n := range cp.Names {
 		fmt.Fprintf(&b, "Definition A_%s : cfunc := %s.\n", n, cp.Terms[n])
+		src = append(src, "A_"+n)
 	}
+	// the order of the emitted file is the order the model of Decls (Tr/Decls.v) computes from the
+	// source order and the calls (the refused function is not emitted)
+	var qfs []string
+	for _, f := range fs {
+		qfs = append(qfs, strconv.Quote(f))
+	}
+	fmt.Fprintf(&b, "Definition A_src : cprog := [%s].\nEval vm_compute in \"MARK ORDER\".\nGoal option_map (fun o => filter (fun n => negb (String.eqb n %q)) (map cf_name (pick A_src o))) (emit_order (decls_of A_src)) = Some [%s]. Proof. vm_compute. reflexivity. Qed.\n",
+		strings.Join(src, "; "), cp.Bad, strings.Join(qfs, "; "))
 	fmt.Fprintf(&b, "Eval vm_compute in \"MARK PROG\".\nGoal trc_prog [%s] = Some [%s]. Proof. vm_compute. reflexivity. Qed.\n", strings.Join(as, "; "), strings.Join(fs, "; "))
 	all := as
 	if cp.Bad != "" && !emitted[cp.Bad] {
